@@ -346,6 +346,7 @@ def model_violation(ctx, r, name):
 
 
 def check(ctx):
+    forkpool.start(16, init=template)
     prop = ctx.prop
     props = PROPS[prop]
     thorough = ctx.tier == "thorough"
